@@ -347,6 +347,8 @@ def _c11() -> List[Obl]:
                            kind="complete" if full else "bounded",
                            bound="" if full else bnd + " (a complete schedule needs BYTES+2 calls)",
                            fns=fns, note=bnd))
+        out.append(Obl(id=f"c11.flush.{w}", prop="C11", engine="kani", target=f"obl_c11::{w}_::c11_flush", tier=tier,
+                       fns=["WordAdapter::flush"], note="the wrapped sink's flush may fail (Interrupted or hard error): Ok only if it succeeded"))
         out.append(Obl(id=f"c11.positions.{w}", prop="C11", engine="kani", target=f"obl_c11::{w}_::c11_positions", tier=tier, kind="bounded",
                        bound="Cursor over at most 2 words plus a partial tail; contents, length and target word symbolic",
                        fns=["WordAdapter::word_pos", "WordAdapter::set_word_pos", "WordAdapter::read_word"]))
@@ -544,8 +546,25 @@ V_LEMMAS = [(l, "") for l in ("lemma_limit", "lemma_bits_determine", "lemma_fiel
                                "lemma_mb_len_bound", "lemma_log2f_exists", "lemma_log2_search", "lemma_log2f", "lemma_log2_unique", "lemma_mb_bits_len")]
 
 
+def _c03_compose() -> List[Obl]:
+    """C03 quantifies over reader kinds, word sizes and positions: the code-level obligations are on the abstract stream, so the primitives of
+    every real reader / writer the codes run on are part of C03's check too (their contracts are C01 / C02)."""
+    out = []
+    out += _verus_reader_bits("C03", ["read_bits", "peek_bits", "skip_bits_after_peek", "refill"], lemmas=False)
+    out += [o for o in _verus_reader_unary("C03", fns=("read_unary",), lemmas=False)]
+    out += [o for o in _verus_bitreader_unary("C03", lemmas=False)]
+    out += [o for o in _verus_writer_bits("C03") if ".write_bits.BE." in o.id or ".write_bits.LE." in o.id]
+    out += [o for o in _verus_writer_unary("C03") if ".write_unary.BE." in o.id or ".write_unary.LE." in o.id]
+    for el, E in ENDIANS:
+        for op in ("read_bits", "peek_bits", "read_unary_k2"):
+            out.append(Obl(id=f"c03.compose.bitreader.{op}.{E}", prop="C03", engine="kani", target=f"obl_bitreader::{el}::c02_{op}", only=r"c02|c09",
+                           kind="bounded" if "unary" in op else "complete", bound="backend window K=2 words" if "unary" in op else "",
+                           fns=[f"BitReader<{E},_>::{op.replace('_k2', '')}"], note="primitive of the unbuffered reader the codes run on (contract of C02)"))
+    return out
+
+
 def _c03() -> List[Obl]:
-    return (_verus_golomb("C03", [V_MB_W, V_MB_R, V_G_W, V_G_R] + V_LEMMAS) + _stdspec("C03", ["ilog2"]) + _verus_rice("C03", [V_R_W, V_R_R] + V_R_LEMMAS) + _verus_zeta("C03", [V_Z_W, V_Z_R] + V_Z_LEMMAS) + _verus_pi("C03", [V_P_W, V_P_R] + V_P_LEMMAS) + _verus_eg("C03", [V_G2_W, V_G2_R, V_E_W, V_E_R] + V_E_LEMMAS) +_codes("C03", r"c03|contract", [(RT_BASE, None), (RT_K, RT_K_QUICK)]) + _golomb("C03", r"c03|contract", ["rt", "mb_rt"]))
+    return _c03_compose() + (_verus_golomb("C03", [V_MB_W, V_MB_R, V_G_W, V_G_R] + V_LEMMAS) + _stdspec("C03", ["ilog2"]) + _verus_rice("C03", [V_R_W, V_R_R] + V_R_LEMMAS) + _verus_zeta("C03", [V_Z_W, V_Z_R] + V_Z_LEMMAS) + _verus_pi("C03", [V_P_W, V_P_R] + V_P_LEMMAS) + _verus_eg("C03", [V_G2_W, V_G2_R, V_E_W, V_E_R] + V_E_LEMMAS) +_codes("C03", r"c03|contract", [(RT_BASE, None), (RT_K, RT_K_QUICK)]) + _golomb("C03", r"c03|contract", ["rt", "mb_rt"]))
 
 
 def _c04() -> List[Obl]:
@@ -654,6 +673,10 @@ def _c14() -> List[Obl]:
     out = []
     for hm, E in (("hbe", "BE"), ("hle", "LE")):
         out.append(Obl(id=f"c14.count_writer.flush.{E}", prop="C14", engine="kani", target=f"obl_c14::{hm}::count_writer_flush", fns=["CountBitWriter::flush"]))
+        out.append(Obl(id=f"c14.count_reader.seek.{E}", prop="C14", engine="kani", target=f"obl_c14::{hm}::count_reader_seek",
+                       fns=["<CountBitReader as BitSeek>::{bit_pos,set_bit_pos}"], note="wrapper created around a stream at an arbitrary position, arbitrary counter"))
+        out.append(Obl(id=f"c14.count_writer.seek.{E}", prop="C14", engine="kani", target=f"obl_c14::{hm}::count_writer_seek",
+                       fns=["<CountBitWriter as BitSeek>::{bit_pos,set_bit_pos}"]))
         for wrap, names, cls in (("count_writer", C14_W, "CountBitWriter"), ("dbg_writer", C14_W, "DbgBitWriter"),
                                  ("count_reader", C14_R, "CountBitReader"), ("dbg_reader", C14_R, "DbgBitReader")):
             for nm in names:
@@ -715,7 +738,8 @@ def _c12() -> List[Obl]:
     for el, E in ENDIANS:
         for w in WWORDS:
             for L in LS:
-                tier = "quick" if (w in ("u8", "u64") and L in QL) else "thorough"
+                # quick: the narrowest, the 64-bit and the 128-bit word (the chunking of the slice depends on the word size)
+                tier = "quick" if ((w in ("u8", "u64") and L in QL) or (w == "u128" and L == 17)) else "thorough"
                 out.append(Obl(id=f"c12.write.{E}.{w}.L{L}", prop="C12", engine="kani", target=f"obl_c12::wr_{el}::{w}_::c12_write_l{L}", tier=tier,
                                kind="bounded", bound=f"slice length = {L} bytes (writer state, contents, bit offset symbolic)",
                                fns=[f"<BufBitWriter<{E},_<{w}>> as std::io::Write>::write"]))
